@@ -53,6 +53,19 @@ namespace nmtools::meta
         struct INDEX_REVERSE_UNSUPPORTED : detail::fail_t {};
     }
 
+    namespace detail
+    {
+        // reverse the element types of a tuple (each clipped element carries its own bound)
+        template <typename indices_t, typename sequence_t>
+        struct reverse_tuple_types;
+
+        template <typename indices_t, template <auto...> typename sequence_t, auto...Is>
+        struct reverse_tuple_types<indices_t,sequence_t<Is...>>
+        {
+            using type = nmtools_tuple<at_t<indices_t,(sizeof...(Is)-1)-Is>...>;
+        };
+    } // namespace detail
+
     template <typename indices_t>
     struct resolve_optype<
         void, index::reverse_t, indices_t
@@ -69,6 +82,11 @@ namespace nmtools::meta
                     using result_t = append_type_t<init_t,ct<at(reversed,index+1)>>;
                     return as_value_v<result_t>;
                 }, as_value_v<init_type>);
+            } else if constexpr (is_clipped_index_array_v<indices_t> && is_tuple_v<indices_t>) {
+                // keep each bound with its element: reverse the element types together with the values
+                using sequence_t = make_index_sequence<len_v<indices_t>>;
+                using type = type_t<detail::reverse_tuple_types<indices_t,sequence_t>>;
+                return as_value_v<type>;
             } else if constexpr (is_index_array_v<indices_t>) {
                 // may be array or tuple of (runtime) index
                 // some fn allow tuple of runtime index
